@@ -50,11 +50,15 @@ package http1
 //@ ghost var bsChecked bool
 //@ ghost var bsIs bool
 //@ ghost var relDone bool
+// hjClr (C09): the hijack handler a request handler may have installed on the pooled context was taken off it again
+// (no reset clears that field: a handler left behind would hijack the connection of whichever request gets the
+// context next) - on every way out of the loop after the handler ran.
+//@ ghost var hjClr bool
 //@ ghost var mayCont bool
 //@ ghost var contDone bool
 
 //@ func Server.Serve(s, c, conn) err
-//@   props C19, C18, C01, C03, C04, C14
+//@   props C19, C18, C01, C03, C04, C14, C09
 //@   requires phase == 0 && !rejecting && !closeSet && !notRunningSeen && !runningChecked && !wantClose && !headChecked && !mayCont && !contDone && !kaSet && !bsChecked && !relDone
 //@   ghostset after RequestHeader.IsHTTP11: is11 = result
 //@   ghostset after ResponseHeader.SetCanonical: kaSet = kaSet || sameSlice(arg2, bytestr.StrKeepAlive)
@@ -67,6 +71,10 @@ package http1
 //@   top-ensures @C14 phase == 3 && err == nil ==> bsChecked && (!bsIs || relDone)
 //@   ghostset after ResetWithoutConn: bsChecked = false
 //@   ghostset after ResetWithoutConn: relDone = false
+//@   ghostset after ServeHTTP: hjClr = false
+//@   ghostset after RequestContext.SetHijackHandler: hjClr = (arg1 == nil)
+//@   top-ensures @C09 !rejecting && phase >= 2 ==> hjClr
+//@   assert @C09 before ResetWithoutConn: hjClr
 //@   ghostset after Request.MayContinue: mayCont = result
 //@   ghostset after ContinueReadBody: contDone = true
 //@   ghostset after ContinueReadBodyStream: contDone = true
